@@ -199,7 +199,13 @@ Record observed := mkObs {
 Inductive case :=
 | CNew (i : inputs) (future : bool) (o : oracle) (b : observed)
 | CNewErr (i : inputs) (e : nerr)                 (* NewRecord returned this error class *)
+| CNewBig (i : inputs) (o : oracle) (raw : bytes) (* NewRecord succeeded, MarshalRecord gave [raw], *)
+          (um vv vk : result unit)                (* but UnmarshalRecord(raw) failed with [um]; [vv] = Validator.Validate(raw),
+                                                     [vk] = Validate(created record, pk) *)
 | CCbor (l : list entry) (enc : bytes).           (* dagcbor.Encode of the map [l] gave [enc] *)
+
+(** run-length shorthand used by the harness for padded records *)
+Definition rep (x n : Z) : bytes := List.repeat x (Z.to_nat n).
 
 Fixpoint prefix_eqb (p b : bytes) : bool :=
   match p, b with
@@ -271,6 +277,29 @@ Definition check_case (c : case) : verdict :=
       let m := new_record unit bytes (fun _ => []) (fun _ _ => []) (fun k => k) (fun _ => []) tt i in
       verdict_of (match m with NErr e' => nerr_eqb e e' | NOk _ => false end)
                  (negb (forallb meta_entry_ok (i_meta i)))
+  | CNewBig i o raw um vv vk =>
+      (* a created record that does not unmarshal: allowed only above the size limit,
+         and then everything must refuse it with ErrRecordSize *)
+      let parse_pk := c_parse_pk o in
+      let marshal_pk := fun k : bytes => k in
+      let verify := c_verify o in
+      let sha := fun _ : bytes => o_sha o in
+      let ptime := c_parse_time o in
+      let now := i_eol i in
+      match new_record unit bytes (fun _ => o_pkbytes o) (c_sign o) marshal_pk (fun _ => o_validity o) tt i with
+      | NErr _ => verdict_of false (forallb meta_entry_ok (i_meta i))
+      | NOk rec =>
+          let m_raw := marshal (r_pb rec) in
+          let m_um := match unmarshal_record m_raw with Ok _ => Ok tt | Err e => Err e end in
+          let model_ok :=
+            bytes_eqb m_raw raw && res_eqb m_um um &&
+            res_eqb (validator_validate bytes parse_pk marshal_pk verify sha ptime now (o_name o) m_raw) vv &&
+            res_eqb (validate bytes verify ptime now rec (o_pkbytes o)) vk in
+          let spec_ok :=
+            (max_record_size <? blen raw) &&
+            res_eqb um (Err ERecordSize) && res_eqb vv (Err ERecordSize) && res_eqb vk (Err ERecordSize) in
+          verdict_of model_ok spec_ok
+      end
   | CNew i future o b =>
       let parse_pk := c_parse_pk o in
       let marshal_pk := fun k : bytes => k in
